@@ -27,7 +27,10 @@ binding half: real rpc.Server + rpc.Client + NetworkMachine over an in-memory
                   formulas on the LOGGED clocks at the quiescence the harness observed.
               B1: free-running histories per sync mode (schema / no schema, allow /
                   skip lists, shallow, per-mutation, push interval 0 / N, drops with
-                  automatic reconnect), validated the same way.
+                  automatic reconnect), validated the same way; the debounce family
+                  (debounce_cases): real push interval + real ticker, reconnects, then a
+                  burst inside one interval, then silence - PushDeliveredAtQuiescence
+                  (the model's "the pusher is live") judged on the logged snapshots.
 A VIOLATION is a formula that is false on values the real pair produced at an
 observed quiescence of a COMPLETED schedule; an incomplete schedule, a dead
 driver or a TLC failure is inconclusive (exit 2).
@@ -46,8 +49,11 @@ FLAGS = ["FixPushDriftSync", "FixEmptyPush", "FixQueueFlush", "FixSyncAsync", "F
          "FixShallowSum", "FixHsGate", "FixHsRequire", "FixApplyInOrder"]
 CODE = {f: False for f in FLAGS}     # pkg/rpc at the pinned commit
 REP = {f: True for f in FLAGS}       # every repair applied
-FORMULAS = ["ConvergedAtQuiescence", "ResyncAfterDrift", "NoForeverBlock", "ReadYourWrite"]
-TRACE_ONLY_FORMULAS = ["ActivityAtQuiescence"]   # judged on the logged Is() of the mirror
+FORMULAS = ["ConvergedAtQuiescence", "ResyncAfterDrift", "NoForeverBlock", "ReadYourWrite",
+            "PushDeliveredAtQuiescence"]
+TRACE_ONLY_FORMULAS = ["ActivityAtQuiescence",   # judged on the logged Is() of the mirror
+                       "PushDeliveredAtQuiescence"]   # invariant of the model by construction (the pusher
+                                                      # is live); judged on the real debounce + ticker
 TRACE_FLAGS = dict(FixQueueFlush=False, FixShallowSum=False)
 
 # sync configurations of the model and the harness configuration that realises them
@@ -79,12 +85,12 @@ TIERS = dict(
         live=[("deep", LIVE)],
         emit=[("deep", SMALL), ("deep", MID), ("muts", MID), ("shallow", SMALL), ("noschema", MID),
               ("nopush", MID), ("deepall", SMALL)],
-        per_emit=14, free=96, workers=16),
+        per_emit=14, free=96, debounce=14, workers=16),
     thorough=dict(
         verify=[(c, BIG) for c in CONFIGS] + [("deep", dict(MID, MaxMut=4, MaxPush=3))],
         live=[("deep", LIVE), ("muts", LIVE), ("noschema", LIVE), ("deepall", LIVE), ("shallow", LIVE)],
         emit=[(c, b) for c in CONFIGS for b in (SMALL, MID)] + [("deep", BIG), ("muts", DROP)],
-        per_emit=60, free=600, workers=16),
+        per_emit=60, free=600, debounce=60, workers=16),
 )
 
 
@@ -342,6 +348,67 @@ def free_cases(n, rnd):
     return cases
 
 
+def debounce_cases(n, rnd):
+    """The debounce of pushClient ("too often": a source change that follows a push or a reply by
+    less than PushInterval is not pushed by the tracer's goroutine but left to the push ticker) with
+    the REAL interval and the REAL ticker: 0-2 drops with a re-handshake on the same server, then a
+    burst of >= 2 source-side changes inside ONE push interval (after a push-free pause the first
+    one is exported at once, the others are debounced; or the burst follows a client mutation, whose
+    reply opens the debounce window), then silence for >= 12 intervals and the quiescence probe."""
+    cases = []
+    for i in range(n):
+        push = rnd.choice([30000, 60000])
+        schema = rnd.random() < 0.7
+        lists = rnd.choice(["none", "skip", "allow"])
+        h = dict(schema=schema, push_us=push)
+        if lists == "skip":
+            h["skipped"] = ["C"]
+        elif lists == "allow":
+            h["allowed"] = rnd.sample(["A", "B", "D"], 3)
+        reconnects = [1, 2, 1, 0][i % 4]
+        opener = "cli" if i % 3 == 2 else "src"
+        active = set()
+        cid = 0
+        steps = [dict(k="autoconn")] if reconnects else []
+
+        def toggle(who, s):
+            nonlocal cid
+            op = "remove" if s in active else "add"
+            (active.discard if s in active else active.add)(s)
+            if who == "cli":
+                cid += 1
+                return dict(k="cli", op=op, states=[s], id=cid, ms=6000)
+            return dict(k="src", op=op, states=[s])
+
+        def burst():
+            out = []
+            if rnd.random() < 0.7:
+                out.append(dict(k="sleep", us=2 * push))     # the previous push is older than the interval
+            out.append(toggle(opener, rnd.choice(["A", "B"])))
+            if opener == "src":
+                # the tracer's goroutine exports the first change (else it may run after the whole
+                # burst and export it in one diff: nothing debounced)
+                out.append(dict(k="sleep", us=push // 8))
+            for _ in range(rnd.randint(1, 2)):               # inside the interval: debounced
+                out.append(toggle("src", rnd.choice(["A", "B"])))
+            return out
+
+        if reconnects == 0 or rnd.random() < 0.5:
+            steps += burst()
+            steps.append(dict(k="settle", us=max(60000, 12 * push), ms=8000))
+        for _ in range(reconnects):
+            steps.append(dict(k="cut", d=rnd.choice(["", "cli"])))
+            steps.append(dict(k="waitready", ms=6000))
+            steps.append(dict(k="settle", us=max(60000, 3 * push), ms=6000))
+        if reconnects:
+            steps += burst()
+        steps += [dict(k="settle", us=max(60000, 12 * push), ms=8000), dict(k="probe", p="quiescent")]
+        cases.append(dict(label="b1-deb-%d" % i, cfg=h, forced=False, steps=steps, config="free",
+                          mode="debounce/%s/%s/push%d/reconnects%d/%s-burst" % (
+                              "schema" if schema else "noschema", lists, push, reconnects, opener)))
+    return cases
+
+
 # ---------------------------------------------------------------------------
 # driver + validation
 
@@ -408,6 +475,11 @@ def cause_of(case, lines, names):
         if any(l["ev"] == "probe" and l.get("syncopen", 0) > 0 for l in lines):
             return "sync_inside_blocking_handler"
         return "call_never_returns"
+    if "PushDeliveredAtQuiescence" in names:
+        # TLC's verdict on the logged snapshots / lastPushData: a change nobody exported, both sides
+        # handshaken; told apart by whether the client had re-handshaken before (measured)
+        hs = sum(1 for l in lines if l["ev"] == "chandshaked")
+        return "debounced_push_never_delivered" + ("_after_reconnect" if hs >= 2 else "")
     if cfg.get("mutations"):
         for l in lines:
             if l["ev"] in ("notify", "reply"):
@@ -576,7 +648,7 @@ def check(tier):
 
             chosen = select_schedules(shapes, tier, rnd)
             b3 = [schedule_case(i, sh) for i, sh in enumerate(chosen)]
-            b1 = free_cases(T["free"], rnd) + info_cases()
+            b1 = free_cases(T["free"], rnd) + debounce_cases(T["debounce"], rnd) + info_cases()
             t1 = time.time()
             with cf.ThreadPoolExecutor(max_workers=2) as ex:
                 f3 = ex.submit(run_driver, binary, b3, d, "b3", T["workers"])
@@ -662,7 +734,9 @@ def check(tier):
                      "feature set) class, shortest first, the rest sampled by VERIF_SEED, forced action by action on a "
                      "real Server+Client; B1: free-running random histories over schema/no schema x none/skip/allow "
                      "lists x deep/shallow/per-mutation x push interval 0/300us/3ms, a quarter with drops and automatic "
-                     "reconnect. A case counts when its schedule completed and a quiescent probe was judged; distinct = "
+                     "reconnect; plus the debounce family: real push interval 30/60 ms and the real ticker, 0-2 "
+                     "drops with re-handshake, then a burst of 2-3 source changes inside one interval (opened by a "
+                     "source change or by a client mutation's reply), then >= 12 intervals of silence. A case counts when its schedule completed and a quiescent probe was judged; distinct = "
                      "different configuration + action history; every case has >= 1 source mutation and >= 1 exported "
                      "diff or sync (non-trivial).",
                 exhaustive=False,
